@@ -108,25 +108,27 @@ def find_factor(P, Q):
 
 
 def norm_script(recipe_in, out_ctx: vx.OutCtx):
-    """proof steps relating the norms of the recipe to the norms of the output (guidance; checked by Coq)"""
-    steps = []
-    outs = []
+    """proof steps relating the norms of the recipe and of the output (guidance; every step is checked by Coq): the
+    arguments are grouped into classes of proportional vectors, every member is rewritten to |k| * norm(representative)"""
+    members = []          # (coq text, components)
     seen = set()
     for text, arg in out_ctx.norm_args:
         if text not in seen:
             seen.add(text)
-            outs.append((text, vx.comps_of_sympy(arg, out_ctx, "v")))
-    done = set()
+            members.append((text, vx.comps_of_sympy(arg, out_ctx, "v")))
     for x in vx.norm_args(recipe_in):
         text = vx.coq_of_recipe(x)
-        if text in done or text in seen:
-            continue
-        done.add(text)
-        P = vx.comps_of_recipe(x)
+        if text not in seen:
+            seen.add(text)
+            members.append((text, vx.comps_of_recipe(x)))
+    steps = []
+    reps = []             # representatives (text, components)
+    for text, P in members:
         if all(sympy.expand(p) == 0 for p in P):
             steps.append(f"replace (norm {text}) with 0 by (replace {text} with vzero by v3_lin; symmetry; apply norm_zero).")
             continue
-        for qtext, Q in outs:
+        done = False
+        for qtext, Q in reps:
             k = find_factor(P, Q)
             if k is None or k == "zero":
                 continue
@@ -145,7 +147,10 @@ def norm_script(recipe_in, out_ctx: vx.OutCtx):
                 except vx.Unsupported:
                     continue
                 steps.append(f"replace (norm {text}) with (Rabs {kt} * norm {qtext}) by (rewrite <- norm_scale; f_equal; v3_lin).")
+            done = True
             break
+        if not done:
+            reps.append((text, P))
     return steps
 
 
